@@ -717,8 +717,6 @@ class IntermediateCodeGen(AbstractCodeGen):
                     format='bits'
                 )
 
-                return outDict
-
             else:
                 raise error.PySmiSemanticError(
                     'unknown type "%s" for defval "%s" of symbol "%s"' % (
